@@ -196,3 +196,23 @@ func renameMap(pinned, current []LocalDecl) map[string]string {
 	}
 	return out
 }
+
+// loadPinnedRanges merges baseline/*.ranges.json.
+func loadPinnedRanges(verif string) map[string]map[string]string {
+	out := map[string]map[string]string{}
+	files, _ := filepath.Glob(filepath.Join(verif, "baseline", "*.ranges.json"))
+	sort.Strings(files)
+	for _, f := range files {
+		data, err := os.ReadFile(f)
+		if err != nil {
+			continue
+		}
+		var m map[string]map[string]string
+		if json.Unmarshal(data, &m) == nil {
+			for k, v := range m {
+				out[k] = v
+			}
+		}
+	}
+	return out
+}
